@@ -366,8 +366,8 @@ func runC10Seq(rec *common.Recorder, idx uint64, seed uint64) bool {
 				}
 			} else {
 				if !cc.run("Release", func() { h.c.Release() }) {
-				return false
-			}
+					return false
+				}
 			}
 		case r < 47: // WeakRef
 			if len(lv) == 0 || len(s.weaks) >= 3 {
@@ -509,8 +509,8 @@ func runC10Seq(rec *common.Recorder, idx uint64, seed uint64) bool {
 				}
 			} else {
 				if !cc.run("Fulfill", func() { p.cp.Fulfill(tc) }) {
-				return false
-			}
+					return false
+				}
 			}
 		case r < 91: // Resolve with a cancelled context
 			if len(all) == 0 {
@@ -653,9 +653,9 @@ func runC10Seq(rec *common.Recorder, idx uint64, seed uint64) bool {
 					}
 				}
 				if !cc.run("Release", func() { a.h.c.Release() }) {
-				ok = false
-				break
-			}
+					ok = false
+					break
+				}
 				s.logOp("epilogue release")
 			} else {
 				a.p.fulfilled = true
@@ -665,9 +665,9 @@ func runC10Seq(rec *common.Recorder, idx uint64, seed uint64) bool {
 					a.p.n.shut = true
 				}
 				if !cc.run("Fulfill", func() { a.p.cp.Fulfill(nil) }) {
-				ok = false
-				break
-			}
+					ok = false
+					break
+				}
 				s.logOp("epilogue fulfill nil")
 			}
 			s.checkShutdowns("epilogue")
